@@ -209,13 +209,17 @@ for f in formats:
             if g:
                 gname = 'g_' + tag
                 gbits = type_bits(wt if g.get('macro') else g['ret'])
-                c.append('static uint64_t %s(void *p) { return (uint64_t)%s((%s *)p); }' % (gname, g['name'], T))
+                # (the PDU argument is an expression with a side effect, as in `get(next(&cursor))`: a function evaluates it once, a
+                #  function-like macro that mentions its parameter twice does not - bind_multi_eval reports that to the engines)
+                c.append('static uint64_t %s(void *p) { %s *c_ = (%s *)p; uint64_t r_ = (uint64_t)%s(c_++); if (c_ != (%s *)p + 1) bind_multi_eval = 1; return r_; }'
+                         % (gname, T, T, g['name'], T))
             st = None
             if s:
                 sname = 's_' + tag
                 st = wt if s.get('macro') else s['args'][1].rsplit(' ', 1)[0]
                 sbits = type_bits(st)
-                c.append('static void %s(void *p, uint64_t v) { %s((%s *)p, (%s)v); }' % (sname, s['name'], T, st))
+                c.append('static void %s(void *p, uint64_t v) { %s *c_ = (%s *)p; uint64_t v_ = v; %s(c_++, (%s)(v_++)); if (c_ != (%s *)p + 1 || v_ != v + 1) bind_multi_eval = 1; }'
+                         % (sname, T, T, s['name'], st, T))
             fname = 'NULL'
             gg = g or (gl[0] if gl else None)
             if gg and s:
@@ -361,6 +365,7 @@ for n in all_tables:
     c.append('extern const BindFormat bind_%s;' % n)
 c.append('const BindFormat *const bind_formats[] = {%s};' % ', '.join('&bind_%s' % n for n in all_tables))
 c.append('const unsigned bind_nformats = %d;' % len(all_tables))
+c.append('volatile unsigned bind_multi_eval = 0;')
 path = os.path.join(out, 'bind_all.c')
 new = '\n'.join(c) + '\n'
 if not os.path.exists(path) or open(path).read() != new:
